@@ -1,7 +1,7 @@
 #!/bin/bash
 # usage: mut.sh <patch> <prop>...   — apply patch to /repo, run the checks (no evidence written), revert.
 set -u
-patch=$1; shift
+patch=$(realpath "$1"); shift
 cd /repo || exit 2
 if ! git diff --quiet; then echo "repo dirty"; exit 2; fi
 if ! git apply "$patch"; then echo "PATCH DOES NOT APPLY: $patch"; exit 3; fi
